@@ -171,6 +171,8 @@ def check_roundtrip(chk, fails, dis, stats):
         script = "vars { %s $w = meta(@%s, \"k\") }\nset_tx_meta(\"k\", $w)\nset_account_meta(@%s, \"k\", $w)\n" % (t, acc, acc)
         c2.append({"id": len(c2), "op": "exec", "script": script, "vars": {}, "balances": {}, "meta": {acc: {"k": stored}}, "_acc": acc,
                    "store": "exact", "failAt": -1})
+        c2.append(dict(c2[-1], id=len(c2), store="static"))          # the bundled store adapter too
+        idx.append(i)
         idx.append(i)
     g2 = runner.run_go(c2)
     m2 = P.run_model(c2, g2)
@@ -208,7 +210,7 @@ def check_roundtrip(chk, fails, dis, stats):
                 dis.append((c, go, m, d))
         if go["outcome"] != "ok":
             fails.append((dict(c, _first=c1[i]), go, m, ["value written to account metadata (%r) cannot be read back as %s: %s %s" % (
-                c["meta"]["acc"]["k"], items[i][0], go.get("errKind"), go.get("errPayload"))]))
+                c["meta"][c["_acc"]]["k"], items[i][0], go.get("errKind"), go.get("errPayload"))]))
         elif go["txMeta"]["k"] != first["txMeta"]["k"]:
             fails.append((dict(c, _first=c1[i]), go, m, ["read back %s, written %s" % (go["txMeta"]["k"], first["txMeta"]["k"])]))
         elif (go.get("accMeta") or {}).get(c["_acc"], {}).get("k") != c["meta"][c["_acc"]]["k"]:
